@@ -507,6 +507,7 @@ def r2q(R, check=False, tol=100):
     kx = R[2, 1] - R[1, 2]  # Oz - Ay
     ky = R[0, 2] - R[2, 0]  # Ax - Nz
     kz = R[1, 0] - R[0, 1]  # Ny - Ox
+    ks = np.r_[kx, ky, kz]  # skew part, equals 4 s v
 
     if (R[0, 0] >= R[1, 1]) and (R[0, 0] >= R[2, 2]):
         kx1 = R[0, 0] - R[1, 1] - R[2, 2] + 1  # Nx - Oy - Az + 1
@@ -538,7 +539,12 @@ def r2q(R, check=False, tol=100):
     if abs(nm) < tol * _eps:
         return eye()
     else:
-        return np.r_[qs, (math.sqrt(max(0.0, 1.0 - qs ** 2)) / nm) * kv]
+        v = (math.sqrt(max(0.0, 1.0 - qs ** 2)) / nm) * kv
+        if qs < 0.5:
+            # close to a half turn sqrt(trace + 1) amplifies rounding noise to
+            # ~1e-8, the skew part R - R' = 4 s [v]x gives the scalar part accurately
+            qs = abs(np.dot(ks, v)) / (4 * np.dot(v, v))
+        return np.r_[qs, v]
 
 
 def slerp(q0, q1, s, shortest=False):
